@@ -120,19 +120,23 @@ def run_real(c, ctx):
                     crop.sow_cases(inp['fn_args'], inp['cases'], constants=inp['sow_consts'] or None, verbosity=0, **skw, **xkw)
         except Exception as e:
             return {'err': type(e).__name__}
-        files = glob.glob(os.path.join(crop.location, 'batches', 'xyz-batch-*.jbdmp'))
-        ids = sorted(int(re.findall(r'xyz-batch-(\d+)\.jbdmp', f)[0]) for f in files)
-        batches = []
-        for i in ids:
-            with open(os.path.join(crop.location, 'batches', f'xyz-batch-{i}.jbdmp'), 'rb') as fh:
-                batches.append(pickle.load(fh))
-        rep = [crop.batchsize, crop.num_batches, crop.num_sown_batches]
-        crop2 = xyz.Crop(name='t', parent_dir=d)
-        rep2 = [crop2.batchsize, crop2.num_batches, crop2.num_sown_batches]
-        # ... and by a handle that repeats the original request (which may differ from what was actually sown)
-        rq = ({'batchsize': c['bs']} if 'bs' in c else {}) | ({'num_batches': c['nb']} if 'nb' in c else {})
-        crop3 = xyz.Crop(name='t', parent_dir=d, **rq)
-        rep3 = [crop3.batchsize, crop3.num_batches, crop3.num_sown_batches, sorted(crop3.missing_results())]
+        try:
+            files = glob.glob(os.path.join(crop.location, 'batches', 'xyz-batch-*.jbdmp'))
+            ids = sorted(int(re.findall(r'xyz-batch-(\d+)\.jbdmp', f)[0]) for f in files)
+            batches = []
+            for i in ids:
+                with open(os.path.join(crop.location, 'batches', f'xyz-batch-{i}.jbdmp'), 'rb') as fh:
+                    batches.append(pickle.load(fh))
+            rep = [crop.batchsize, crop.num_batches, crop.num_sown_batches]
+            crop2 = xyz.Crop(name='t', parent_dir=d)
+            rep2 = [crop2.batchsize, crop2.num_batches, crop2.num_sown_batches]
+            # ... and by a handle that repeats the original request (which may differ from what was actually sown)
+            rq = ({'batchsize': c['bs']} if 'bs' in c else {}) | ({'num_batches': c['nb']} if 'nb' in c else {})
+            crop3 = xyz.Crop(name='t', parent_dir=d, **rq)
+            rep3 = [crop3.batchsize, crop3.num_batches, crop3.num_sown_batches, sorted(crop3.missing_results())]
+        except Exception as e:
+            # reading the sown files back / re-creating the crop from disk is part of the property: a failure is an observation
+            return {'err_reload': type(e).__name__, 'msg': str(e)[:200]}
         # direct run with a recording function: the kwargs a direct run passes
         log = []
 
@@ -173,6 +177,7 @@ def model_request(c, obs):
 
 
 def compare(c, obs, rep):
+    if 'err_reload' in obs: return None          # the oracle reports it
     if 'err' in obs or 'err' in rep:
         return None if ('err' in obs) == ('err' in rep) else f'error mismatch real={obs.get("err")} model={rep.get("err")}'
     if obs['batches'] != rep['batches']:
@@ -187,6 +192,8 @@ def oracle(c, obs):
     if 'harness_exc' in obs: return 'harness: ' + obs['harness_exc']
     if 'err' in obs:
         return f'sow raised {obs["err"]} for a valid request'
+    if 'err_reload' in obs:
+        return f'after a successful sow, reading the batches / reloading the crop raised {obs["err_reload"]}: {obs["msg"]}'
     n = c['n']
     B = len(obs['ids'])
     if obs['ids'] != list(range(1, B + 1)): return f'batch ids not 1..B: {obs["ids"]}'
